@@ -458,6 +458,7 @@ class Tt4Card(SimBase):
         self.executed = []             # APDUs executed (list of byte lists)
         self.responses = []            # their responses
         self.blocks_seen = []          # lengths of frames received while activated
+        self.wtx_in_chain = False      # one S(WTX) request between two response pieces
         self.script = None             # responses of the proprietary test applet
         self.script_seen = []
         self.base = {}                 # flat address space for write logs
@@ -535,10 +536,17 @@ class Tt4Card(SimBase):
                 return self._send([0xA2 | self.bn])
             if self.tx:                             # rules E and 13
                 self.bn ^= 1
+                if self.wtx_in_chain:
+                    # the card may ask for more time before any block
+                    self.wtx_in_chain = False
+                    self.pending = "next-piece"
+                    return self._send([0xF2, 0x01])
                 return self._next_piece()
             raise nfc.clf.TimeoutError("unexpected R(ACK)")
         if pcb == 0xF2 and len(cmd) == 2 and self.pending is not None:
             rsp, self.pending = self.pending, None
+            if rsp == "next-piece":
+                return self._next_piece()
             return self._start_response(rsp)
         if pcb == 0xC2:
             self.activated = False
